@@ -63,7 +63,17 @@ func runReplayHarness(verif, repo, prop string, o *Obligation, rec map[string]in
 	if rel == "" {
 		target = "."
 	}
-	cmd := exec.Command("bash", "-c", fmt.Sprintf("ulimit -v 8000000; cd %s && go test -overlay %s -vet=off -timeout 60s -count=1 -run '^TestGovcReplay$' -v %s", repo, ovfile, target))
+	extra := ""
+	ulimit := "ulimit -v 8000000; "
+	if tb, err := os.ReadFile(tmpl); err == nil {
+		if m := regexp.MustCompile(`(?m)^// govc-flags: (.*)$`).FindStringSubmatch(string(tb)); m != nil {
+			extra = " " + strings.TrimSpace(m[1])
+			if strings.Contains(extra, "-race") {
+				ulimit = "" // the race runtime reserves a large address space
+			}
+		}
+	}
+	cmd := exec.Command("bash", "-c", fmt.Sprintf("%scd %s && go test -overlay %s -vet=off -timeout 60s -count=1%s -run '^TestGovcReplay$' -v %s", ulimit, repo, ovfile, extra, target))
 	cmd.Env = append(os.Environ(), "GOFLAGS=-mod=mod", "GOPROXY=off", "GOSUMDB=off", "GOTOOLCHAIN=local", "GOVC_MODEL="+mfile, "GOVC_OBLIGATION="+o.Name)
 	out, _ := cmd.CombinedOutput()
 	text := string(out)
@@ -71,5 +81,5 @@ func runReplayHarness(verif, repo, prop string, o *Obligation, rec map[string]in
 		text = text[:3000] + "\n...\n" + text[len(text)-3000:]
 	}
 	rec["replay"] = map[string]interface{}{"harness": strings.TrimPrefix(tmpl, verif+"/"), "model_scalars": scalars, "command": "go test -overlay <harness as zz_govc_replay_test.go> -run TestGovcReplay " + target, "output": text}
-	return strings.Contains(string(out), "REPLAY-CONFIRMED")
+	return strings.Contains(string(out), "REPLAY-CONFIRMED") || strings.Contains(string(out), "WARNING: DATA RACE")
 }
